@@ -392,6 +392,9 @@ def run_slots(repo, R):
 
 
 def run(repo, R):
+    R.rule("PITFALL", "no result buffer typed after an input, no real cast of a transformation, no unbuffered accumulation / first-occurrence scatter through np.unique")
+    from ..pitfalls import report as _pitfalls
+    _pitfalls(repo, R, ['gbasis.evals.eval', 'gbasis.evals.eval_deriv', 'gbasis.evals._deriv'])
     R.rule("INPUTS", "the public wrapper uses its parameters as given: no path replaces one by a filtered/re-ordered/scaled/defaulted copy")
     from ..flow import check_wrapper_inputs
     for _w in ['gbasis.evals.eval.evaluate_basis', 'gbasis.evals.eval_deriv.evaluate_deriv_basis']:
